@@ -25,12 +25,27 @@ CONSTANTS Names,        \* file names
           NB,           \* blocks per file
           MaxThr, MaxReq, MaxCrash, MaxCorrupt, MaxClean, MaxExpire, MaxOverwrite, MaxQuery,
           KF_S1,        \* known finding S1: log look-ups match substrings / first line only
-          KF_S3         \* known finding S3: cleanStrays never finds the companion
+          KF_S3,        \* known finding S3: cleanStrays never finds the companion
+          KF_S7,        \* finding S7: a crash between the two renames of fileutil.Move strands
+                        \* <final>/<target>.lck (TRUE: the code as found; FALSE: Recover completes the move)
+          KF_S15,       \* finding S15: a part of another version rewrites the companion of a file that
+                        \* is validated but not yet delivered; after a crash Recover delivers the old
+                        \* bytes under the new companion's hash
+          KF_S20,       \* finding S20: Recover() validates and delivers a complete staged copy without
+                        \* asking whether that version is already logged as delivered
+          KF_S9,        \* finding S9: the cache rebuilt from the log keeps the FIRST record of a name; a
+                        \* retransmission of a later delivered version is then not recognised
+          KF_S21,       \* finding S21: cleanStrays treats a file whose validation failed like a delivered
+                        \* one (stateFailed > stateReceived) and deletes the partial of its retransmission
+          KF_S19,       \* finding S19: a companion survives the creation of a fresh .part while its
+                        \* file is received / validated (it then describes a body that is elsewhere)
+          Hostile       \* TRUE: any request at any time; FALSE: requests a sender following the
+                        \* protocol can have in flight together (same version, disjoint ranges)
 
 Blocks == 1..NB
 Nil == <<>>                                  \* "no such file"
-Z == "Z"
-X == "X"
+Z == <<"Z", 0>>
+X == <<"X", 0>>
 Good(n, v) == [k \in Blocks |-> <<n, v>>]
 Fresh == [k \in Blocks |-> Z]
 NoCmp == [v |-> 0, prev |-> "", ren |-> "", have |-> {}]
@@ -58,7 +73,8 @@ vars == <<d, m, b, h>>
 (* m.ready   : Ready()                           m.rec : "" | "begin" | "walked" | "cached"  *)
 (* h.arrive  : [NV -> count] arrivals in the final directory                                *)
 (* h.ans     : the last answer given             h.passed : <<n, v>> ever answered positively *)
-(* h.cleaned : what cleaning removed             h.held : names ever reported waiting         *)
+(* h.cleaned : what cleaning removed             h.treated : bodies treated as complete       *)
+(* h.ack     : what the sender was told is held  h.seen : <<n, v>> ever announced            *)
 
 Init ==
   /\ d = [part |-> [n \in Names |-> Nil], full |-> [n \in Names |-> Nil], waitf |-> [n \in Names |-> Nil],
@@ -68,11 +84,16 @@ Init ==
           plock |-> [n \in Names |-> FALSE], held |-> [n \in Names |-> ""], thr |-> {},
           vq |-> {}, fq |-> {}, val |-> NoJob, fin |-> NoJob, ready |-> TRUE, rec |-> ""]
   /\ b = [req |-> 0, crash |-> 0, corrupt |-> 0, clean |-> 0, expire |-> 0, overwrite |-> 0, query |-> 0]
-  /\ h = [arrive |-> [nv \in NV |-> 0], ans |-> NoAns, passed |-> {}, cleaned |-> {}]
+  /\ h = [arrive |-> [nv \in NV |-> 0], ans |-> NoAns, passed |-> {}, cleaned |-> {}, treated |-> {},
+          ack |-> [n \in Names |-> [v |-> 0, have |-> {}]], stale |-> {},
+          seen |-> {}, s15 |-> {}, taint |-> {}, redo |-> {}, shadow |-> {}]
 
 St(n) == m.cache[n].st
 Free(n) == m.held[n] = ""
 MD5ok(data, n, v) == data = Good(n, v)
+Stale(n) == KF_S19 /\ n \in h.stale
+Tainted(n) == KF_S15 /\ n \in h.taint
+Redone(n) == KF_S20 /\ n \in h.redo
 
 -----------------------------------------------------------------------------
 (* The receive log as the stage reads it.                                  *)
@@ -106,6 +127,11 @@ Prepare(n, v, lo, hi, dv) ==
   /\ m.ready /\ m.rec = ""
   /\ Cardinality(m.thr) < MaxThr /\ b.req < MaxReq
   /\ Free(n)
+  /\ Hostile \/ /\ \A t \in m.thr : t.n = n => (t.v = v /\ (t.hi < lo \/ hi < t.lo))
+                \* ... and does not repeat what was acknowledged, unless told to
+                /\ h.ack[n].v = v => (lo..hi) \cap h.ack[n].have = {}
+                \* ... and a file only moves forward through its versions
+                /\ \A w \in 1..3 : <<n, w>> \in h.seen => w <= v
   /\ dv # v => b.corrupt < MaxCorrupt
   /\ b' = [b EXCEPT !.req = @ + 1, !.corrupt = IF dv # v THEN @ + 1 ELSE @]
   /\ d' = IF d.part[n] # Nil THEN d
@@ -114,7 +140,8 @@ Prepare(n, v, lo, hi, dv) ==
   /\ m' = [m EXCEPT !.plock[n] = TRUE,
                     !.thr = @ \cup {[n |-> n, v |-> v, lo |-> lo, hi |-> hi, dv |-> dv,
                                      id |-> b.req + 1, pc |-> "prep"]}]
-  /\ UNCHANGED h
+  /\ h' = [h EXCEPT !.stale = IF d.part[n] = Nil /\ d'.cmp[n] # NoCmp THEN @ \cup {n} ELSE @,
+                    !.seen = @ \cup {<<n, v>>}]
 
 \* Receive, first half: the bytes are written at their offset, without the lock
 RecvWrite(t) ==
@@ -143,7 +170,10 @@ RecvRecord(t) ==
      IN d' = [d EXCEPT !.cmp[t.n] = c]
   /\ m' = [m EXCEPT !.held[t.n] = "recv", !.plock[t.n] = TRUE,
                     !.thr = (@ \ {t}) \cup {[t EXCEPT !.pc = "recorded"]}]
-  /\ UNCHANGED <<b, h>>
+  /\ h' = [h EXCEPT !.stale = IF d.cmp[t.n] = NoCmp \/ d.cmp[t.n].v # t.v THEN @ \ {t.n} ELSE @,
+                    !.s15 = IF d.cmp[t.n] # NoCmp /\ d.cmp[t.n].v # t.v /\ (d.waitf[t.n] # Nil \/ d.full[t.n] # Nil)
+                            THEN @ \cup {t.n} ELSE @]
+  /\ UNCHANGED b
 
 \* ... and, still under the lock, a complete file is handed to validation -
 \* unless it is already known with this hash (a duplicate)
@@ -154,15 +184,17 @@ RecvComplete(t) ==
          e == m.cache[t.n]
          dup == e.st # "unknown" /\ e.st # "failed" /\ e.v = t.v
          ack == [kind |-> "recv", n |-> t.n, v |-> t.v, res |-> "ok"]
+         acked == [h.ack EXCEPT ![t.n] = IF @.v = t.v THEN [@ EXCEPT !.have = @ \cup (t.lo..t.hi)]
+                                         ELSE [v |-> t.v, have |-> t.lo..t.hi]]
      IN IF ~done
         THEN /\ m' = [m EXCEPT !.held[t.n] = "", !.thr = @ \ {t}]
-             /\ UNCHANGED d /\ h' = [h EXCEPT !.ans = ack]
+             /\ UNCHANGED d /\ h' = [h EXCEPT !.ans = ack, !.ack = acked]
         ELSE IF dup
         THEN /\ d' = [d EXCEPT !.part[t.n] = Nil,
                                !.cmp[t.n] = IF e.st \in {"finalized", "logged"} THEN NoCmp ELSE @]
              /\ m' = [m EXCEPT !.held[t.n] = "", !.thr = @ \ {t},
                                !.plock[t.n] = IF e.st \in {"finalized", "logged"} THEN FALSE ELSE @]
-             /\ h' = [h EXCEPT !.ans = ack]
+             /\ h' = [h EXCEPT !.ans = ack, !.ack = acked]
         ELSE IF d.part[t.n] = Nil
         THEN \* the rename fails: the file is cached as failed
              /\ m' = [m EXCEPT !.held[t.n] = "", !.thr = @ \ {t},
@@ -173,7 +205,8 @@ RecvComplete(t) ==
              /\ m' = [m EXCEPT !.held[t.n] = "", !.thr = @ \ {t},
                                !.cache[t.n] = [st |-> "received", v |-> t.v, prev |-> Prev[t.n], ren |-> Ren[t.n]],
                                !.vq = @ \cup {t.n}]
-             /\ h' = [h EXCEPT !.ans = ack]
+             /\ h' = [h EXCEPT !.ans = ack, !.ack = acked, !.treated = @ \cup {[n |-> t.n, stale |-> Stale(t.n),
+                                                   holes |-> { k \in Blocks : d.part[t.n][k] = Z }]}]
   /\ UNCHANGED b
 
 -----------------------------------------------------------------------------
@@ -296,7 +329,8 @@ AnsStatus(n) ==
          r == StatusOf(c, n)
      IN /\ m' = [m EXCEPT !.cache = c, !.built = TRUE]
         /\ h' = [h EXCEPT !.ans = [kind |-> "status", n |-> n, v |-> c[n].v, res |-> r],
-                          !.passed = IF r \in {"passed", "waiting"} THEN @ \cup {<<n, c[n].v>>} ELSE @]
+                          !.passed = IF r \in {"passed", "waiting"} THEN @ \cup {<<n, c[n].v>>} ELSE @,
+                          !.ack[n] = IF r \in {"failed", "none"} THEN [v |-> 0, have |-> {}] ELSE @]
   /\ b' = [b EXCEPT !.query = @ + 1]
   /\ UNCHANGED d
 
@@ -322,7 +356,7 @@ AnsReceived(n, v, lo, hi) ==
 (* Cleaning: cleanStrays for one old .part, cleanWaiting                     *)
 AgePart(n) ==       \* environment: time passes, the .part becomes a day old
   /\ d.part[n] # Nil /\ ~d.old[n] /\ b.clean < MaxClean
-  /\ \A t \in m.thr : t.n # n
+  /\ m.thr = {} /\ m.val = NoJob /\ m.fin = NoJob /\ m.vq = {} /\ m.fq = {}   \* a day passes: nothing is in flight
   /\ d' = [d EXCEPT !.old[n] = TRUE]
   /\ UNCHANGED <<m, b, h>>
 
@@ -330,10 +364,10 @@ CleanStray(n) ==
   /\ d.part[n] # Nil /\ d.old[n] /\ b.clean < MaxClean
   /\ LET k == IF KF_S3 THEN NoCmp ELSE d.cmp[n]        \* the companion cleanStrays sees
          st == St(n)
-         beyond == st \in {"validated", "failed", "finalized", "logged"}
+         beyond == st \in {"validated", "finalized", "logged"} \cup (IF KF_S21 THEN {"failed"} ELSE {})
          del == IF beyond THEN (k = NoCmp \/ k.v = m.cache[n].v)
                 ELSE WasReceived(n, k.v)
-         delCmp == IF beyond THEN (d.cmp[n] # NoCmp /\ st = "logged")
+         delCmp == IF beyond THEN (d.cmp[n] # NoCmp /\ st = "logged" /\ (KF_S3 \/ del))
                    ELSE (del /\ d.cmp[n] # NoCmp)
      IN /\ d' = [d EXCEPT !.part[n] = IF del THEN Nil ELSE @,
                           !.cmp[n] = IF delCmp THEN NoCmp ELSE @]
@@ -365,11 +399,21 @@ CleanLoop(n) ==
 \* cleanCache with everything old: delivered entries leave the memory
 ExpireCache ==
   /\ b.expire < MaxExpire
+  /\ Hostile \/ b.req = MaxReq   \* (a sender following the protocol asks before it re-sends a day later)
+  /\ m.thr = {} /\ m.val = NoJob /\ m.fin = NoJob /\ m.vq = {} /\ m.fq = {}   \* a day passes: nothing is in flight
   /\ m' = [m EXCEPT !.cache = [n \in Names |->
                 IF @[n].st \in {"finalized", "logged"} /\ @[n].prev = "" THEN Unknown ELSE @[n]],
                     !.built = FALSE]
   /\ b' = [b EXCEPT !.expire = @ + 1]
-  /\ UNCHANGED <<d, h>>
+  /\ h' = [h EXCEPT !.shadow = @ \cup { n \in Names : \E i, j \in 1..Len(d.rlog) :
+                                           d.rlog[i].n = n /\ d.rlog[j].n = n /\ d.rlog[i].v # d.rlog[j].v },
+                    \* within that day the sender has polled every delivered file to a verdict
+                    !.ack = [n \in Names |->
+                               LET vs == { v \in 1..3 : <<n, v>> \in NV /\ h.arrive[<<n, v>>] > 0 }
+                               IN IF vs # {} /\ d.part[n] = Nil /\ d.full[n] = Nil /\ d.waitf[n] = Nil
+                                  THEN [v |-> CHOOSE v \in vs : \A w \in vs : w <= v, have |-> Blocks]
+                                  ELSE @[n]]]
+  /\ UNCHANGED d
 
 \* environment: a block of the staged body is overwritten
 Overwrite(n, k) ==
@@ -387,7 +431,14 @@ Crash ==
   /\ m' = [cache |-> [n \in Names |-> Unknown], built |-> FALSE, wait |-> {}, timers |-> {},
            plock |-> [n \in Names |-> FALSE], held |-> [n \in Names |-> ""], thr |-> {},
            vq |-> {}, fq |-> {}, val |-> NoJob, fin |-> NoJob, ready |-> FALSE, rec |-> "begin"]
-  /\ UNCHANGED <<d, h>>
+  /\ h' = [h EXCEPT !.ack = [n \in Names |-> [v |-> d.cmp[n].v, have |-> d.cmp[n].have]],
+                    !.taint = @ \cup { n \in h.s15 : d.waitf[n] # Nil },
+                    !.shadow = @ \cup { n \in Names : \E i, j \in 1..Len(d.rlog) :
+                                            d.rlog[i].n = n /\ d.rlog[j].n = n /\ d.rlog[i].v # d.rlog[j].v },
+                    !.redo = @ \cup { n \in Names : d.cmp[n] # NoCmp /\ Logged(n, d.cmp[n].v) /\
+                                        (d.full[n] # Nil \/ d.waitf[n] # Nil \/
+                                         (d.part[n] # Nil /\ d.cmp[n].have = Blocks)) }]
+  /\ UNCHANGED d
 
 HasCmp(n) == d.cmp[n] # NoCmp
 RecToFin == { n \in Names : HasCmp(n) /\ d.waitf[n] # Nil }
@@ -397,11 +448,20 @@ RecOrphan == { n \in Names : HasCmp(n) /\ d.waitf[n] = Nil /\ d.full[n] = Nil /\
 
 RecWalk ==          \* the walk: complete .part -> .full, orphan companions removed
   /\ m.rec = "begin"
-  /\ d' = [d EXCEPT !.full = [n \in Names |-> IF n \in RecToVal /\ d.full[n] = Nil THEN d.part[n] ELSE @[n]],
-                    !.part = [n \in Names |-> IF n \in RecToVal /\ d.full[n] = Nil THEN Nil ELSE @[n]],
-                    !.cmp = [n \in Names |-> IF n \in RecOrphan THEN NoCmp ELSE @[n]]]
+  /\ LET \* (fix of S7) a companion whose body sits between the two renames of the
+         \* move: the move is completed
+         mv == IF KF_S7 THEN {} ELSE { n \in Names : HasCmp(n) /\ d.finalLck[Target(n, d.cmp[n].ren)] # Nil }
+         tgt(n) == Target(n, d.cmp[n].ren)
+     IN /\ d' = [d EXCEPT
+              !.full = [n \in Names |-> IF n \in RecToVal /\ d.full[n] = Nil THEN d.part[n] ELSE @[n]],
+              !.part = [n \in Names |-> IF n \in RecToVal /\ d.full[n] = Nil THEN Nil ELSE @[n]],
+              !.cmp = [n \in Names |-> IF n \in RecOrphan THEN NoCmp ELSE @[n]],
+              !.final = [t \in Targets |-> IF \E n \in mv : tgt(n) = t THEN d.finalLck[t] ELSE @[t]],
+              !.finalLck = [t \in Targets |-> IF \E n \in mv : tgt(n) = t THEN Nil ELSE @[t]]]
+        /\ h' = [h EXCEPT !.arrive = [nv \in NV |-> IF nv[1] \in mv /\ d.finalLck[tgt(nv[1])] = Good(nv[1], nv[2])
+                                                  THEN @[nv] + 1 ELSE @[nv]]]
   /\ m' = [m EXCEPT !.rec = "walked"]
-  /\ UNCHANGED <<b, h>>
+  /\ UNCHANGED b
 
 RecCache ==         \* buildCache from the log, then the files found are cached and dispatched
   /\ m.rec = "walked"
@@ -446,7 +506,7 @@ Spec == Init /\ [][Next]_vars
 P_C01_Final ==
   \A n \in Names :
     LET t == Target(n, Ren[n])
-    IN (d.final[t] # Nil /\ (\A n2 \in Names : Target(n2, Ren[n2]) = t => n2 = n)) =>
+    IN (d.final[t] # Nil /\ ~Tainted(n) /\ (\A n2 \in Names : Target(n2, Ren[n2]) = t => n2 = n)) =>
          \E v \in Vers[n] : d.final[t] = Good(n, v) /\ Logged(n, v)
 \* ... also while it is being moved
 P_C01_Lck == \A n \in Names : LET t == Target(n, Ren[n]) IN
@@ -455,13 +515,13 @@ P_C01_Lck == \A n \in Names : LET t == Target(n, Ren[n]) IN
 Held(n, v) == d.waitf[n] = Good(n, v) \/ d.finalLck[Target(n, Ren[n])] = Good(n, v)
               \/ (h.arrive[<<n, v>>] > 0) \/ Logged(n, v)
 P_C01_NoFalsePass ==
-  (h.ans.kind = "status" /\ h.ans.res \in {"passed", "waiting"}) => Held(h.ans.n, h.ans.v)
+  (h.ans.kind = "status" /\ h.ans.res \in {"passed", "waiting"} /\ ~Tainted(h.ans.n)) => Held(h.ans.n, h.ans.v)
 
 \* C05: each version arrives in the final directory at most once; the log
 \* repeats a record only across a crash
-P_C05_Once == \A nv \in NV : h.arrive[nv] <= 1
+P_C05_Once == \A nv \in NV : Stale(nv[1]) \/ Redone(nv[1]) \/ (KF_S9 /\ nv[1] \in h.shadow) \/ h.arrive[nv] <= 1
 LogCount(n, v) == Cardinality({ i \in 1..Len(d.rlog) : d.rlog[i].n = n /\ d.rlog[i].v = v })
-P_C05_LogOnce == \A nv \in NV : LogCount(nv[1], nv[2]) <= 1 + b.crash
+P_C05_LogOnce == \A nv \in NV : Stale(nv[1]) \/ Redone(nv[1]) \/ (KF_S9 /\ nv[1] \in h.shadow) \/ LogCount(nv[1], nv[2]) <= 1 + b.crash
 
 \* C04: a file is logged / delivered only after its predecessor (unless the
 \* cycle breaker intervened)
@@ -474,14 +534,22 @@ P_C04_Order ==
 \* C06: nothing stays stranded between the two renames of the move once the
 \* receiver is idle again; whatever was confirmed is still held
 Idle == m.ready /\ m.rec = "" /\ m.thr = {} /\ m.vq = {} /\ m.fq = {} /\ m.val = NoJob /\ m.fin = NoJob
-P_C06_NoStrand == Idle => \A t \in Targets : d.finalLck[t] = Nil
-P_C06_NoLoss == \A nv \in h.passed : Held(nv[1], nv[2])
+P_C06_NoStrand == (Idle /\ ~KF_S7) => \A t \in Targets : d.finalLck[t] = Nil
+\* (a version that the sender replaced by another one is not "lost")
+Superseded(n) == \E v1, v2 \in 1..3 : v1 # v2 /\ <<n, v1>> \in h.seen /\ <<n, v2>> \in h.seen
+P_C06_NoLoss == \A nv \in h.passed : Superseded(nv[1]) \/ Tainted(nv[1]) \/ Held(nv[1], nv[2])
 
 \* C09 (protocol half): the companion claims only blocks that hold bytes of
 \* its version (corruption in transit is not the record's business: X counts)
+OkBody(body, have) == body # Nil /\ \A k \in have : body[k] # Z
 P_C09_Sound ==
-  \A n \in Names : (d.cmp[n] # NoCmp /\ d.part[n] # Nil /\ b.overwrite = 0) =>
-     \A k \in d.cmp[n].have : d.part[n][k] # Z
+  \A n \in Names : (d.cmp[n] # NoCmp /\ d.cmp[n].have # {} /\ ~Stale(n)) =>
+     \/ OkBody(d.part[n], d.cmp[n].have) \/ OkBody(d.full[n], d.cmp[n].have)
+     \/ OkBody(d.waitf[n], d.cmp[n].have)
+     \/ OkBody(d.finalLck[Target(n, d.cmp[n].ren)], d.cmp[n].have)
+     \/ OkBody(d.final[Target(n, d.cmp[n].ren)], d.cmp[n].have)
+\* a body is treated as complete only if every block was written
+P_C09_Complete == \A e \in h.treated : e.stale \/ e.holes = {}
 
 \* C20: cleaning removes a partial or companion only of a version that was delivered
 P_C20_OnlyDelivered ==
